@@ -37,11 +37,11 @@ def stage_inst(tier, seed, hostile=False):
     insts = I.build(tier, seed)
     if hostile:
         insts = hostile_subset(insts)
-    st = X.Stage('%s-%s-%d-%s' % ('hostile' if hostile else 'inst', tier, seed, hashlib.sha256(json.dumps([insts, D_HOSTILE() if hostile else 0], sort_keys=True).encode()).hexdigest()[:12]))
+    st = X.Stage('%s-%s-%d-s2-%s' % ('hostile' if hostile else 'inst', tier, seed, hashlib.sha256(json.dumps([insts, D_HOSTILE() if hostile else 0], sort_keys=True).encode()).hexdigest()[:12]))
     def build(out):
         ws = X.scratch_dir('inst')
         try:
-            I.write_workspace(ws, insts, repo=X.REPO, crate_prefix='h' if hostile else 's', hostile=hostile)
+            I.write_workspace(ws, insts, repo=X.REPO, crate_prefix='h' if hostile else 's', hostile=hostile, shards=64 if tier == 'thorough' else 16)
             rc, err, diags = X.run_driver(ws, os.path.join(out, 'facts'))
             errors = []
             for d in diags:
@@ -144,9 +144,21 @@ def run_instances(modname, stage_dir, extra=None, select=None):
     if failed_crates and not errs['errors']:
         total.error('fact files missing for crates %s without a compiler diagnostic: %s' % (sorted(failed_crates), errs.get('stderr_tail', '')[-800:]))
     if jobs:
-        with multiprocessing.Pool(min(16, len(jobs))) as pool:
-            for ctx in pool.imap_unordered(_work, jobs):
-                total.merge(ctx)
+        # a worker that dies (e.g. killed under memory pressure) must not hang the check: ProcessPoolExecutor raises
+        # BrokenProcessPool, and the jobs that did not complete are then redone one by one in this process
+        import concurrent.futures as cf
+        done = set()
+        nproc = int(os.environ.get('VERIF_JOBS', '0') or 0) or min(16, len(jobs), os.cpu_count() or 4)
+        try:
+            with cf.ProcessPoolExecutor(max_workers=nproc) as ex:
+                futs = {ex.submit(_work, j): i for i, j in enumerate(jobs)}
+                for fu in cf.as_completed(futs):
+                    total.merge(fu.result())
+                    done.add(futs[fu])
+        except cf.process.BrokenProcessPool:
+            for i, j in enumerate(jobs):
+                if i not in done:
+                    total.merge(_work(j))
     return total, len(recs)
 
 class _FakeInst:
@@ -162,6 +174,25 @@ def load_known():
     with open(os.path.join(VERIF, 'known_findings.json')) as f:
         k = json.load(f)
     return {x['key']: x for x in k['findings'] if x.get('status') == 'open'}
+
+# counts confirmed on the pinned tree (quick tier); a run whose counts fall below them passes vacuously -> checker error
+FLOORS = {
+    'C01': {'programs': 1000, 'accept-set': 2000, 'into-cast': 2000},
+    'C02': {'programs': 1200, 'obligation:transmute': 6000, 'obligation:unwrap_unchecked': 1200, 'obligation:assume_init': 800},
+    'C03': {'programs': 1000, 'as_str-name': 1000, 'delegation': 2500},
+    'C04': {'programs': 1000, 'from_str-map': 2000},
+    'C05': {'programs': 1000, 'step': 2000},
+    'C06': {'programs': 1000, 'constructor': 1000, 'cursor': 1500},
+    'C07': {'programs': 800, 'constructor': 1500, 'index': 1200},
+    'C08': {'programs': 1000, 'constructor': 1000},
+    'C09': {'programs': 1200, 'constructor': 3000, 'step': 2000, 'obligation:transmute': 6000},
+    'C10': {'programs': 1200, 'accept-witness': 1200, 'catalogue': 40},
+    'C11': {'programs': 1200, 'accepted': 1200},
+    'C15': {'programs': 1200, 'vis': 12000, 'helper-private': 5000},
+    'C16': {'programs': 500, 'path-lint': 55, 'resolution-identity': 500},
+    'C18': {'programs': 120, 'perm-identity': 40, 'repr-identity': 40},
+    'C19': {'programs': 1200, 'signature': 10000, 'iter-traits': 8000},
+}
 
 def finish(prop, tier, seed, level, ctx, t0, coverage_extra=None, assumptions=None, explanation=None, nontrivial_rule=None):
     """prints KNOWN-FINDING / VIOLATION lines, writes evidence and replay files, returns the exit code"""
@@ -195,6 +226,11 @@ def finish(prop, tier, seed, level, ctx, t0, coverage_extra=None, assumptions=No
             print('  first instance: %s' % v['declaration'][:400])
         if v.get('construct'):
             print('  generator construct: %s' % v['construct'])
+    if not ctx.violations and not (coverage_extra or {}).get('replay_of'):
+        for k, fl in FLOORS.get(prop, {}).items():
+            got = len(ctx.programs) if k == 'programs' else ctx.by_rule.get(k, 0)
+            if got < fl:
+                ctx.error('%s: %s = %d is below the floor %d confirmed on the pinned tree: the check would pass vacuously' % (prop, k, got, fl))
     for e in ctx.errors[:10]:
         print('CHECKER-ERROR: %s' % e)
     cov = {
@@ -208,6 +244,7 @@ def finish(prop, tier, seed, level, ctx, t0, coverage_extra=None, assumptions=No
         'checker_cmd': './check %s --tier %s' % (prop, tier),
         'trusted_base': TRUSTED_BASE,
         'known_findings_printed': sorted(seen_known),
+        'floors': FLOORS.get(prop, {}),
     }
     if ctx.obligations:
         cov['obligations'] = ctx.obligations
